@@ -64,7 +64,7 @@ func b2(b bool) byte {
 
 // archToRaw builds a coherent register file: both copies agree, index high bytes are zero when
 // X=1, and in emulation mode SP=01xx with M=X=1.
-func archToRaw(a wdc.Arch) Raw {
+func ArchToRaw(a wdc.Arch) Raw {
 	var r Raw
 	r.PC, r.SP, r.RD, r.RDBR, r.RK = a.PC, a.S, a.D, a.DBR, a.K
 	r.RA, r.RAl, r.RAh = a.A, byte(a.A), byte(a.A>>8)
@@ -129,7 +129,7 @@ func NewPrimary() *Primary {
 func (p *Primary) Name() string    { return "cpu65c816" }
 func (p *Primary) SetMem(m *Mem)   { p.proxy.M = m }
 func (p *Primary) Mem() *Mem       { return p.proxy.M }
-func (p *Primary) Load(a wdc.Arch) { p.LoadRaw(archToRaw(a)) }
+func (p *Primary) Load(a wdc.Arch) { p.LoadRaw(ArchToRaw(a)) }
 func (p *Primary) LoadRaw(r Raw) {
 	c := p.C
 	onwdm, onpc := c.OnWDM, c.OnPC
@@ -198,7 +198,7 @@ func NewAlt() *Alt {
 func (p *Alt) Name() string    { return "cpualt" }
 func (p *Alt) SetMem(m *Mem)   { p.proxy.M = m }
 func (p *Alt) Mem() *Mem       { return p.proxy.M }
-func (p *Alt) Load(a wdc.Arch) { p.LoadRaw(archToRaw(a)) }
+func (p *Alt) Load(a wdc.Arch) { p.LoadRaw(ArchToRaw(a)) }
 func (p *Alt) LoadRaw(r Raw) {
 	c := p.C
 	c.StepInfo = cpualt.StepInfo{}
